@@ -399,6 +399,13 @@ def run_check(pid, tier, replay=None):
         if not mcres.ok:
             raise C.Inconclusive("Dials.tla does not satisfy its own properties in the %s/%s configuration (%s): specification alarm, "
                                  "not a verdict about the code\n%s" % (pid, tier, mcres.violated, mcres.out[-1500:]))
+        mc_also = None
+        if not quick:
+            # the thorough tier also checks the quick configuration (it differs in shape, e.g. two sources with one operation each)
+            r2 = mc.model_check(scratch, pid, "quick", timeout=1200, tag="mcq")
+            if not r2.ok:
+                raise C.Inconclusive("Dials.tla does not satisfy its own properties in the %s/quick configuration (%s): specification alarm" % (pid, r2.violated))
+            mc_also = {"config": mc.consts_for(pid, "quick"), "distinct_states": r2.distinct, "generated_states": r2.generated}
         selftest = {}
         if not quick:
             for tog in SELFTEST[pid]:
@@ -533,7 +540,7 @@ def run_check(pid, tier, replay=None):
                     "; distinct = different (scenario, executed schedule) pairs",
             "model": {"config": mc.consts_for(pid, tier), "distinct_states": mcres.distinct, "generated_states": mcres.generated,
                       "depth": mcres.depth, "invariants": mc.INVARIANTS, "action_properties": mc.ACTION_PROPS, "wall_s": round(mcres.wall, 1)},
-            "toggle_selftest": selftest, "binding_selftest": binding, "delay_machine": delay_run, "unbounded_inductive_invariant": inductive, "blank_set_source_context": blank_ctx,
+            "model_second_configuration": mc_also, "toggle_selftest": selftest, "binding_selftest": binding, "delay_machine": delay_run, "unbounded_inductive_invariant": inductive, "blank_set_source_context": blank_ctx,
             "spec_behaviours_replayed": len(behaviours), "plan_steps_not_enabled_in_code": plan_skips,
             "observer": {"events": len(events), "tlc_states": obs_states, "breaches_total": len(viol), "other_property_tags_seen": others},
             "strict_conformance": {"traces": len(conf), "by_status": status,
